@@ -35,7 +35,7 @@ def prepare():
 
 
 def gen_pool_plan(rng, tier, with_shutdown=True):
-    p = base_plan(rng, nodes=rng.choice([1, 1, 2, 3]))
+    p = base_plan(rng, nodes=rng.choice([1, 1, 2, 3]), legacy_p=0.2)
     n = len(p['cluster']['nodes'])
     mif = rng.choice([4, 6, 8, 16])
     thr = rng.choice([1, 2, 3, 4])
@@ -91,6 +91,8 @@ def gen_pool_plan(rng, tier, with_shutdown=True):
         # a replacement, a response or a timeout to complete in between
         p['focus_stall'] = [rng.choice(['borrow_connection', 'borrow_connection', 'return_connection', '_replace', 'shutdown', '_on_timeout', '_query']),
                             rng.choice([0.05, 0.15, 0.3]), rng.choice([0.01, 0.05, 0.2])]
+        if with_shutdown and p['shutdown']['at'] is not None and rng.random() < 0.5:
+            p['shutdown_on_stall'] = True
     if rng.random() < 0.35:
         p['session_keyspace'] = 'ks1'
         p['use_delay'] = rng.choice([0.0, 0.02, 0.1, 0.4])
@@ -104,7 +106,10 @@ def gen_plan(rng, tier):
 def line_funcs(w):
     HC = w.cpool.HostConnection
     RF = w.ccl.ResponseFuture
-    return [HC.borrow_connection, HC.return_connection, HC._replace, HC.shutdown, RF._on_timeout, RF._query, w.cconn.Connection.process_msg]
+    HP = w.cpool.HostConnectionPool
+    return [HC.borrow_connection, HC.return_connection, HC._replace, HC.shutdown, RF._on_timeout, RF._query, w.cconn.Connection.process_msg,
+            HP.borrow_connection, HP.return_connection, HP._replace, HP.shutdown, HP._add_conn_if_under_max, HP._maybe_trash_connection,
+            HP._maybe_spawn_new_connection, HP._wait_for_conn]
 
 
 class PoolRun(ReqPathRun):
@@ -117,7 +122,21 @@ class PoolRun(ReqPathRun):
         self.pool_events = []       # (seq, pool id, kind, detail)
         self.max_seen = {}
         self.over_capacity = []
-        HC = w.cpool.HostConnection
+        run = self
+        for HC in (w.cpool.HostConnection, w.cpool.HostConnectionPool):
+            self._wrap_pool_class(HC)
+
+        def monitor():
+            for c in seams.ALL_CONNS:
+                f = c.in_flight
+                if f < 0 or f > c.max_request_id + 1:
+                    if len(run.inflight_bad) < 5:
+                        run.inflight_bad.append((sim.nlog, getattr(c, '_sim_serial', 0), f, c.max_request_id,
+                                                 c.is_control_connection, sorted(c.orphaned_request_ids)[:6]))
+        sim.monitors.append(monitor)
+
+    def _wrap_pool_class(self, HC):
+        w, sim = self.w, self.w.sim
         run = self
         orig_borrow, orig_shutdown = HC.borrow_connection, HC.shutdown
 
@@ -144,15 +163,6 @@ class PoolRun(ReqPathRun):
         set_knob(HC, 'borrow_connection', borrow)
         set_knob(HC, 'shutdown', shutdown)
 
-        def monitor():
-            for c in seams.ALL_CONNS:
-                f = c.in_flight
-                if f < 0 or f > c.max_request_id + 1:
-                    if len(run.inflight_bad) < 5:
-                        run.inflight_bad.append((sim.nlog, getattr(c, '_sim_serial', 0), f, c.max_request_id,
-                                                 c.is_control_connection, sorted(c.orphaned_request_ids)[:6]))
-        sim.monitors.append(monitor)
-
     def apply_fault(self, f):
         if f['kind'] == 'refuse_new':
             n = self.w.fc.nodes[f['node']]
@@ -176,7 +186,16 @@ class PoolRun(ReqPathRun):
         w = self.w
         while not self.st.get('started') and not self.connect_error:
             w.sleep(0.01)
-        w.sleep(sd['at'])
+        if self.plan.get('shutdown_on_stall') and self.plan.get('focus_stall'):
+            # bound to the focused stall: shut down while some thread sits between two lines of the singled-out function
+            sim = w.sim
+            end = sim.vnow() + max(sd['at'], 0.05) * 3
+            while sim.focus_hits == 0 and sim.vnow() < end:
+                w.sleep(0.002)
+            if sim.focus_hits:
+                sim.probe('shutdown_during_focused_stall')
+        else:
+            w.sleep(sd['at'])
         self.do_shutdown(sd)
 
     def do_shutdown(self, sd):
@@ -266,7 +285,7 @@ def run_plan(plan, seed, choices=None):
             if nc.events:
                 continue
             V.check('C12/capacity')
-            if len(nc.outstanding) > mif:
+            if len(nc.outstanding) > mif + (1 if plan.get('version', 4) < 3 else 0):      # protocol 1/2: ids 0..min(max_in_flight, 127)
                 V.add('C12/capacity', 'node-outstanding-over-capacity', 'node %d %s has %d outstanding streams, id space %d'
                       % (n.idx, nc.label, len(nc.outstanding), mif))
     if w.fc.stream_reuse:
@@ -317,4 +336,4 @@ def run_plan(plan, seed, choices=None):
     return {'violations': V.items, 'rules_checked': V.checked, 'nontrivial': bool(nontrivial),
             'faults': dict(w.net.fault_counts), 'states': [w.abstract_state()],
             'summary': {'status': status, 'requests': len(run.obs), 'sockets': len(w.net.all_socks)},
-            'stratum': 'n%d' % len(plan['cluster']['nodes'])}
+            'stratum': 'n%d%s' % (len(plan['cluster']['nodes']), '-v2pool' if plan.get('version', 4) < 3 else '')}
